@@ -541,6 +541,41 @@ Section Width.
     subst. congruence.
   Qed.
 
+  (* two prefixes in the same branch below p have their common prefix in that branch *)
+  Lemma under_common_prefix : forall p b q r, wfp p -> wfp q -> wfp r ->
+    under p b q = true -> under p b r = true -> under p b (common_prefix q r) = true.
+  Proof.
+    intros p b q r Hp Hq Hr U1 U2.
+    apply under_spec in U1. apply under_spec in U2.
+    destruct U1 as (C1 & L1 & B1), U2 as (C2 & L2 & B2).
+    assert (Hc := common_prefix_wf q r Hq Hr).
+    assert (Hl : plen p < w) by (destruct Hq; lia).
+    assert (G : covers p (common_prefix q r) = true) by (apply common_prefix_glb; auto).
+    assert (A : agree (S (plen p)) (paddr q) (paddr r)).
+    { apply covers_spec in C1; auto. apply covers_spec in C2; auto.
+      apply agree_succ; auto. split; [|congruence].
+      destruct C1 as [_ A1], C2 as [_ A2]. unfold agree in *. congruence. }
+    assert (L : S (plen p) <= plen (common_prefix q r)).
+    { apply clz_agree in A; try apply Hq; try apply Hr; [|lia].
+      unfold common_prefix; simpl. lia. }
+    apply under_spec. split; auto. split; [lia|].
+    rewrite <- B1.
+    pose proof (common_prefix_covers_l q r Hq Hr) as Cq.
+    apply covers_spec in Cq; auto. destruct Cq as [_ Aq].
+    apply (agree_nthbit (plen (common_prefix q r))); auto; [lia | apply Hc].
+  Qed.
+
+  Lemma prefix_ltb_asym : forall p q, prefix_ltb p q = true -> prefix_ltb q p = false.
+  Proof.
+    intros p q H. destruct (prefix_ltb q p) eqn:E; auto.
+    pose proof (prefix_ltb_trans _ _ _ H E) as T. rewrite prefix_ltb_irrefl in T. discriminate.
+  Qed.
+
+  Lemma prefix_ltb_neq : forall p q, prefix_ltb p q = true -> prefix_eqb p q = false.
+  Proof.
+    intros p q H. apply prefix_eqb_neq. intros ->. rewrite prefix_ltb_irrefl in H. discriminate.
+  Qed.
+
 End Width.
 
 Arguments top : simpl never.
@@ -551,3 +586,5 @@ Arguments contains : simpl never.
 Arguments covers : simpl never.
 Arguments common_prefix : simpl never.
 Arguments under : simpl never.
+Arguments prefix_eqb : simpl never.
+Arguments prefix_ltb : simpl never.
